@@ -5,7 +5,11 @@ FileOf(L) == [b \in DOMAIN L.idx |-> L.fod[b].file]
 LayClass(L) == <<Cardinality(FilesUsed(L)),
                  IF \E f \in DOMAIN L.files : \E i, j \in DOMAIN L.files[f] :
                         i < j /\ L.files[f][i].idx > L.files[f][j].idx THEN "nonmono" ELSE "mono">>
-KeptClass == IF kept = <<>> THEN "none" ELSE IF kept = Names THEN "every" ELSE IF Len(kept) = Len(Names) THEN "every-reversed" ELSE IF \E i \in DOMAIN kept : kept[i] = "zz" THEN "with-unknown"
+PosSetK == {PosIn(Names, kept[i]) : i \in DOMAIN kept}
+BlockUnorderedK == /\ Len(kept) >= 3 /\ Len(kept) < Len(Names) /\ \A i \in DOMAIN kept : kept[i] \in Rng(Names)
+                   /\ (CHOOSE x \in PosSetK : \A y \in PosSetK : x >= y) - (CHOOSE x \in PosSetK : \A y \in PosSetK : x <= y) + 1 = Len(kept)
+                   /\ \E i, j \in DOMAIN kept : i < j /\ PosIn(Names, kept[i]) > PosIn(Names, kept[j])
+KeptClass == IF kept = <<>> THEN "none" ELSE IF BlockUnorderedK THEN "block-out-of-order" ELSE IF kept = Names THEN "every" ELSE IF Len(kept) = Len(Names) THEN "every-reversed" ELSE IF \E i \in DOMAIN kept : kept[i] = "zz" THEN "with-unknown"
              ELSE IF Len(kept) = 2 /\ PosIn(Names, kept[1]) > PosIn(Names, kept[2]) THEN "reordered" ELSE "names"
 Sig == <<Len(inp.lev), nnew, KeptClass, serial, [l \in DOMAIN inp.lev |-> LayClass(inp.lev[l])],
          IF \E i, j \in DOMAIN sched : i < j /\ sched[i] > sched[j] THEN "reordered-finish" ELSE "fifo-finish">>
